@@ -407,3 +407,26 @@ def IntervalTier_eraseRegion(self, start, end, collisionMode, doShrink):
         return IntervalTier(self.name, kept, self.minTimestamp, self.maxTimestamp)
     moved = [y for x in kept for y in shrink_shift(x, start, end)]
     return IntervalTier(self.name, fuse_at(moved, start), self.minTimestamp, start + (self.maxTimestamp - end))
+
+
+# ---- C05 as one predicate (used where a contract covers both tier classes)
+
+
+def well_formed_interval(t):
+    return (forall(t.entries, valid)
+            and forall(t.entries, lambda e: t.minTimestamp <= e.start and e.end <= t.maxTimestamp)
+            and forall(t.entries, lambda e: strip(e.label) == e.label)
+            and pairwise(t.entries, disjoint_ordered)
+            and is_sorted(t.entries))
+
+
+def well_formed_point(t):
+    return (forall(t.entries, lambda p: t.minTimestamp <= p.time and p.time <= t.maxTimestamp)
+            and forall(t.entries, lambda p: strip(p.label) == p.label)
+            and is_sorted(t.entries))
+
+
+def well_formed(t):
+    if t.tierType == "IntervalTier":
+        return well_formed_interval(t)
+    return well_formed_point(t)
